@@ -1,70 +1,76 @@
 --------------------------- MODULE Trace_C14_edit ---------------------------
-(* Trace validation of the replayed edit histories.  Each recorded call is   *)
-(* stepped through the NamesEdit actions (T: result, derived rows present,   *)
-(* namespace of an add_symbols call).  The reference view `ruser` is driven  *)
-(* by the OBSERVED outcome of each edit, so P does not depend on the         *)
-(* transcription.  P is evaluated on every observed Unit(str) / add_symbols  *)
+(* Trace validation of the replayed edit histories (custom registry, or the  *)
+(* default registry with define_unit).  Each recorded call is stepped        *)
+(* through the NamesEdit actions (T: result, derived rows present, namespace *)
+(* of an add_symbols call).  The reference view `ruser` is driven by the     *)
+(* OBSERVED outcome of each edit, so P does not depend on the transcription. *)
+(* P is evaluated on every observed define_unit / Unit(str) / add_symbols    *)
 (* step and on the final observation (every probe string resolved from the   *)
-(* same state, and a fresh namespace).                                       *)
+(* same state; a fresh add_symbols namespace, resp. the unyt top-level       *)
+(* namespace for the default registry).                                      *)
 EXTENDS NamesEdit, IOUtils
 Traces == JsonDeserialize(IOEnv.TRACES)
-VARIABLES tid, l, ruser, cur
-tvars == <<evars, tid, l, ruser, cur>>
+VARIABLES tid, l, ruser, rprev, cur
+tvars == <<evars, tid, l, ruser, rprev, cur>>
 NoEv == [op |-> "init"]
-TraceInit == EditInit /\ tid = 0 /\ l = 0 /\ ruser = Table0 /\ cur = NoEv
+TraceInit == EditInitK("custom") /\ tid = 0 /\ l = 0 /\ ruser = Table0 /\ rprev = Table0 /\ cur = NoEv
 Step(e) == CASE e.op = "add" -> Add(e.k, e.m, e.pfx)
              [] e.op = "remove" -> Remove(e.k)
              [] e.op = "modify" -> Modify(e.k, e.m)
+             [] e.op = "define" -> Define(e.k, e.m, e.pfx)
              [] e.op = "unit" -> Construct(e.p)
              [] e.op = "addsymbols" -> AddSymbols
 RUser(e) == IF e.obs.k # "ok" THEN ruser
-            ELSE CASE e.op = "add" -> [ruser EXCEPT ![e.k] = Row(e.m, 0, e.pfx)]
+            ELSE CASE e.op \in {"add", "define"} -> [ruser EXCEPT ![e.k] = Row(e.m, 0, e.pfx)]
                    [] e.op = "remove" -> [ruser EXCEPT ![e.k] = Absent]
                    [] e.op = "modify" -> IF Present(ruser[e.k]) THEN [ruser EXCEPT ![e.k].m = e.m] ELSE ruser
                    [] OTHER -> ruser
 TraceNext ==
-  \/ /\ tid = 0 /\ \E t \in 1..Len(Traces) : tid' = t
-     /\ l' = 1 /\ UNCHANGED <<evars, ruser, cur>>
+  \/ /\ tid = 0 /\ \E t \in 1..Len(Traces) : (tid' = t /\ kind' = Traces[t].kind
+                                               /\ lut' = IF Traces[t].kind = "default" THEN TableWarm ELSE Table0)
+     /\ l' = 1 /\ UNCHANGED <<user, memo, hist, last, ruser, rprev, cur>>
   \/ /\ tid > 0 /\ l <= Len(Traces[tid].ev)
      /\ Step(Traces[tid].ev[l]) /\ hist' = hist
-     /\ ruser' = RUser(Traces[tid].ev[l])
+     /\ ruser' = RUser(Traces[tid].ev[l]) /\ rprev' = ruser
      /\ cur' = Traces[tid].ev[l]
      /\ l' = l + 1 /\ tid' = tid
   \/ /\ tid > 0 /\ l = Len(Traces[tid].ev) + 1
      /\ cur' = [op |-> "final"] /\ l' = l + 1
-     /\ UNCHANGED <<evars, ruser, tid>>
+     /\ UNCHANGED <<evars, ruser, rprev, tid>>
 
-PFail(clause, p, layer, o) == PrintT(ToJson([tag |-> "P-FAIL", tid |-> tid, l |-> l - 1, clause |-> clause, probe |-> ProbeSeq[p].s,
-                                             layer |-> layer, observed |-> o, expected |-> RefDen(ruser, p)]))
+PFail(clause, p, layer, o, want) == PrintT(ToJson([tag |-> "P-FAIL", tid |-> tid, l |-> l - 1, clause |-> clause, probe |-> ProbeSeq[p].s,
+                                                   layer |-> layer, observed |-> o, expected |-> want]))
 TFail(what, model) == PrintT(ToJson([tag |-> "T-FAIL", tid |-> tid, l |-> l - 1, what |-> what, model |-> model]))
-ObsAsO(o) == IF o.ok THEN "unit" ELSE "raise"
 TStrOk(m, o) == IF m.k = "unit" THEN o.ok /\ (\E x \in DOMAIN o.den : o.den[x] = m.den) ELSE ~o.ok
 \* a step that was just taken: cur = its record (with observation), evars = the model's state after it
 CheckStep ==
   (tid > 0 /\ cur.op \notin {"init", "final"}) =>
     /\ (cur.op = "unit" =>
-          /\ (~C14_EditStr(ruser, cur.p, cur.obs) => PFail("EditStr", cur.p, Layer(ruser, cur.p, cur.rowsbefore), cur.obs))
+          /\ (~C14_EditStr(ruser, cur.p, cur.obs) => PFail("EditStr", cur.p, Layer(ruser, cur.p, cur.rowsbefore), cur.obs, RefDens(ruser, cur.p)))
           /\ (~TStrOk(last, cur.obs) => TFail("unit", last)))
+    /\ (cur.op = "define" =>
+          (~C14_DefineGuard(rprev, cur.k, cur.obs.k = "ok") =>
+              PFail("DefineGuard", ProbeNo(cur.k), Layer(rprev, ProbeNo(cur.k), cur.rowsbefore), cur.obs, {RaiseO})))
     /\ (cur.op = "addsymbols" =>
           /\ (cur.obs.k = "ns" => \A p \in PIdx :
-                ~C14_EditNs(ruser, p, cur.ns[p]) => PFail("EditNs", p, Layer(ruser, p, cur.rowsbefore), cur.ns[p]))
+                ~C14_EditNs(ruser, p, cur.ns[p]) => PFail("EditNs", p, Layer(ruser, p, cur.rowsbefore), cur.ns[p], RefDens(ruser, p)))
           /\ ((cur.obs.k = "ns") # (last.k = "ns") => TFail("addsymbols", [k |-> last.k]))
           /\ ((cur.obs.k = "ns" /\ last.k = "ns") => \A p \in PIdx :
                 (IF last.ns[p].k = "unit" THEN ~(cur.ns[p].present /\ TStrOk(last.ns[p], cur.ns[p])) ELSE cur.ns[p].present)
                   => TFail("ns-entry", [probe |-> ProbeSeq[p].s, model |-> last.ns[p]])))
-    /\ (cur.op \in {"add", "remove", "modify"} => (cur.obs.k # last.k => TFail(cur.op, last)))
+    /\ (cur.op \in {"add", "remove", "modify", "define"} => (cur.obs.k # last.k => TFail(cur.op, last)))
     /\ (ModelRows(lut) # cur.rows => TFail("rows", [rows |-> ModelRows(lut)]))
 \* the final observation of a trace
 Final == Traces[tid].final
 CheckFinal ==
   (tid > 0 /\ cur.op = "final") =>
     /\ \A p \in PIdx :
-         /\ (~C14_EditStr(ruser, p, Final.probes[p]) => PFail("EditStr", p, Layer(ruser, p, Final.rows), Final.probes[p]))
-         /\ (~TStrOk(PeekStr(p, lut, memo)[1], Final.probes[p]) => TFail("final-unit", [probe |-> ProbeSeq[p].s, model |-> PeekStr(p, lut, memo)[1]]))
+         /\ (~C14_EditStr(ruser, p, Final.probes[p]) => PFail("EditStr", p, Layer(ruser, p, Final.rows), Final.probes[p], RefDens(ruser, p)))
+         /\ (~TStrOk(PeekStr(p, lut, MemoRead)[1], Final.probes[p]) => TFail("final-unit", [probe |-> ProbeSeq[p].s, model |-> PeekStr(p, lut, MemoRead)[1]]))
     /\ (Final.nsok => \A p \in PIdx :
-          /\ (~C14_EditNs(ruser, p, Final.ns[p]) => PFail("EditNs", p, Layer(ruser, p, Final.rows), Final.ns[p]))
+          /\ (~C14_EditNs(ruser, p, Final.ns[p]) => PFail("EditNs", p, Layer(ruser, p, Final.rows), Final.ns[p], RefDens(ruser, p)))
           /\ ((Final.ns[p].present /\ Final.probes[p].ok /\ Final.ns[p].den # Final.probes[p].den)
-                => PFail("EditAgree", p, Layer(ruser, p, Final.rows), Final.ns[p])))
-    /\ (Final.nsok # NsOf(lut).ok => TFail("final-addsymbols", [ok |-> NsOf(lut).ok]))
+                => PFail("EditAgree", p, Layer(ruser, p, Final.rows), Final.ns[p], {[k |-> "unit", den |-> Final.probes[p].den]})))
+    /\ ((kind = "custom" /\ Final.nsok # NsOf(lut).ok) => TFail("final-addsymbols", [ok |-> NsOf(lut).ok]))
 Check == CheckStep /\ CheckFinal
 =============================================================================
